@@ -102,6 +102,8 @@ def oracle(line, out):
     w = line.split()
     if out.startswith(BAD):
         return ('memory', 'implementation aborted/hung: ' + out)
+    if ' cstr-' in out:
+        return ('cstr', 'the (const char*) constructor of Address disagrees with the (std::string) one on the same text: ' + out[-40:])
     if out.startswith('err ') and out != 'err invalid_argument':
         return ('errclass', 'rejected with %s, not std::invalid_argument' % out[4:])
     t = unhx(w[1])
